@@ -246,12 +246,51 @@ func raMain(args []string) {
 		defer fw.Flush()
 	}
 	n, panics := 0, 0
+	learnedRecs := map[string]string{} // routers learned by the current handler -> their record when last seen
 	readScript(*vectors, func(a action) {
+		if many := a.i("many"); many > 0 {
+			// n distinct routers advertise the same content to a fresh handler; report every record afterwards
+			if err := d.fresh(); err != nil {
+				fmt.Fprintln(os.Stderr, "session:", err)
+				os.Exit(2)
+			}
+			d.used = 1000
+			learnedRecs = map[string]string{}
+			res := map[string]interface{}{"i": n, "many": many}
+			var pan string
+			for k := 1; k <= many && pan == ""; k++ {
+				smac := d.u.HuntMAC("rm" + strconv.Itoa(k))
+				b := vh.FrameRA(smac, d.u.HuntIP("r"+strconv.Itoa(k)), header(a["h"].(map[string]interface{})), encodeOpts(a["opts"].([]interface{}), d.rng))
+				if fw != nil {
+					fmt.Fprintf(fw, "%x\n", b)
+				}
+				_, pan = d.feed(b)
+			}
+			if pan != "" {
+				res["panic"] = pan
+				panics++
+			}
+			recs := []interface{}{}
+			for k := 1; k <= many; k++ {
+				ok, rec := d.project(d.u.HuntIP("r" + strconv.Itoa(k)))
+				recs = append(recs, map[string]interface{}{"learned": ok, "rec": rec, "ethsrc": d.u.HuntMAC("rm" + strconv.Itoa(k)).String()})
+			}
+			res["recs"], res["lan"] = recs, len(d.lan())
+			if def, ok := d.h.VerifDefaultRouter(); ok {
+				res["default"] = map[string]string{"ip": def.IP.String(), "mac": def.MAC.String()}
+			}
+			b, _ := json.Marshal(res)
+			w.Write(b)
+			w.WriteByte('\n')
+			n++
+			return
+		}
 		if d.s == nil || d.used >= 100 {
 			if err := d.fresh(); err != nil {
 				fmt.Fprintln(os.Stderr, "session:", err)
 				os.Exit(2)
 			}
+			learnedRecs = map[string]string{}
 		}
 		d.used++
 		k := d.used
@@ -288,6 +327,24 @@ func raMain(args []string) {
 		learned, rec := d.project(src)
 		res["learned"], res["rec"] = learned, rec
 		res["lan"] = len(d.lan())
+		// every router this handler learned earlier must still be in the table with the record it had
+		lost := 0
+		for ip, was := range learnedRecs {
+			if ip == src.String() {
+				continue
+			}
+			ok, r := d.project(netip.MustParseAddr(ip))
+			now, _ := json.Marshal(r)
+			if !ok || string(now) != was {
+				lost++
+			}
+		}
+		res["lost"] = lost
+		if learned {
+			now, _ := json.Marshal(rec)
+			learnedRecs[src.String()] = string(now)
+		}
+		res["lan_expected"] = len(learnedRecs)
 		res["lan_has"] = func() bool {
 			for _, x := range d.lan() {
 				if x == src.String() {
